@@ -17,6 +17,9 @@ requests (Lean → harness):
   `ligate dom pool0 pool1 pool2 pool3`       pool = `seq,fwd,rev;…`  (pool0 in the given order, then the three shuffles);
                                              dom = true|false: the case is inside the property's quantifier
   `goldengate dom enzyme parts0 parts1 parts2 parts3`   parts = `seq:C;seq:L;…`
+  `goldengate2 dom enzyme twinparts parts0 parts1 parts2 parts3`   (case `ggtwin tag enzyme parts twin perm1 perm2 perm3`): in ONE
+       process first the parts with part `twin` in its other topology (same text), then the four calls; reply
+       `ok race runTwin run0 run1 run2 run3 cut cutTwin`
 replies:
   `ok race|norace run0 run1 run2 run3 [cut]`  run = `n:c1:C,c2:C,…` (sequence and Circular flag of every returned Part);
        cut = fragments of CutWithEnzymeByName per part of parts0, `seq,fwd,rev;…|…`
@@ -78,6 +81,18 @@ structure Cut where
   pos : Nat
   fwd : Bool
   ok : Bool := true
+  siteLo : Nat := 0     -- the recognition site occupies [siteLo, siteHi)
+  siteHi : Nat := 0
+  lo : Nat := 0         -- everything the cut needs contiguous on a linear text: [lo, hi)
+  hi : Nat := 0
+
+def mkF (e : Enzyme) (siteLo : Nat) (ok : Bool) : Cut :=
+  let pos := siteLo + e.site.length + e.skip
+  { pos, fwd := true, ok, siteLo, siteHi := siteLo + e.site.length, lo := siteLo, hi := pos + e.skip + 4 }
+
+def mkR (e : Enzyme) (siteLo : Nat) (ok : Bool) : Cut :=
+  { pos := siteLo - e.skip, fwd := false, ok := ok && decide (e.skip ≤ siteLo), siteLo, siteHi := siteLo + e.site.length,
+    lo := siteLo - e.skip, hi := siteLo + e.site.length }
 
 /-- lay the segments out left to right: the unrotated top-strand text and its cuts in order -/
 def layout (e : Enzyme) : List String → Str → List Cut → Option (Str × List Cut)
@@ -85,8 +100,8 @@ def layout (e : Enzyme) : List String → Str → List Cut → Option (Str × Li
   | seg :: rest, body, cuts =>
     match seg.splitOn ":" with
     | ["p", w] => layout e rest (body ++ w.toList) cuts
-    | ["F", _] => layout e rest (body ++ e.site) (⟨body.length + e.site.length + e.skip, true, true⟩ :: cuts)
-    | ["R", _] => layout e rest (body ++ revComp e.site) (⟨body.length - e.skip, false, decide (e.skip ≤ body.length)⟩ :: cuts)
+    | ["F", _] => layout e rest (body ++ e.site) (mkF e body.length true :: cuts)
+    | ["R", _] => layout e rest (body ++ revComp e.site) (mkR e body.length true :: cuts)
     | ["i", spec] =>
       match spec.splitOn "/" with
       | [a, b, c, fl, sp1, sp2] =>
@@ -96,7 +111,7 @@ def layout (e : Enzyme) : List String → Str → List Cut → Option (Str × Li
         let stop := start + f.fwd.length + f.seq.length + f.rev.length
         let okSp := sp1.length == e.skip && sp2.length == e.skip && f.fwd.length == 4 && f.rev.length == 4
         layout e rest (body ++ e.site ++ sp1.toList ++ f.fwd ++ f.seq ++ f.rev ++ sp2.toList ++ revComp e.site)
-          (⟨stop, false, okSp⟩ :: ⟨start, true, okSp⟩ :: cuts)
+          (mkR e (stop + sp2.length) okSp :: mkF e body.length okSp :: cuts)
       | _ => none
     | _ => none
 
@@ -116,30 +131,51 @@ def expectedFragments (body : Str) (cuts : List Cut) (circular : Bool) : List Fr
   let w := if circular then body ++ body else body
   (releasedPairs cuts').map fun (p, q) => fragOfText ((w.drop p).take (q - p))
 
+/-- the cuts of the LINEAR text `rotl k body`: a cut whose extent contains the new origin is gone; the others move -/
+def cutsLinearRot (n k : Nat) (cuts : List Cut) : List Cut :=
+  let surv := cuts.filter fun c => k ≤ c.lo || c.hi ≤ k
+  let moved := surv.map fun c => if k ≤ c.lo then { c with pos := c.pos - k } else { c with pos := c.pos + n - k }
+  moved.mergeSort fun a b => a.pos ≤ b.pos
+
+/-- on a linear rotated text a cut may only disappear because the origin falls strictly inside its recognition site -/
+def linearRotOk (k : Nat) (cuts : List Cut) : Bool :=
+  cuts.all fun c => k ≤ c.lo || c.hi ≤ k || (c.siteLo < k && k < c.siteHi)
+
 def lower (s : Str) : Str := s.map Char.toLower
 
-def parsePart (e : Enzyme) (s : String) : Option PartSpec :=
+/-- `toggle`: the same text with the other topology (the "twin" of the part) -/
+def parsePart (e : Enzyme) (toggle : Bool) (s : String) : Option PartSpec :=
   match s.splitOn "," with
   | [shape, rot, pflip, lc, segs] =>
     match layout e (splitList "+" segs) [] [] with
     | none => none
     | some (body, cuts) =>
-      let circ := shape == "C"
+      let circ := (shape == "C") != toggle
       let pf := pflip == "1"
-      let rotated := if circ then Spec.rotl (natOfStr rot) body else body
+      let k := if body.isEmpty then 0 else natOfStr rot % body.length
+      let rotated := Spec.rotl k body
       let stranded := if pf then revComp rotated else rotated
       let text := if lc == "1" then lower stranded else stranded
-      let expect0 := expectedFragments body cuts circ
+      let lcuts := cutsLinearRot body.length k cuts
+      let expect0 := if circ then expectedFragments body cuts true else expectedFragments rotated lcuts false
       let expect := if pf then expect0.map flip else expect0
-      let nF := cuts.countP (·.fwd)
-      let nR := cuts.countP (!·.fwd)
-      let wf := isDna body && siteCount e body circ == (nF, nR) && cuts.all (·.ok) &&
-        (circ && body.length > 0 || !circ && cuts.all fun c => !c.fwd || c.pos + e.skip + 4 ≤ body.length) &&
+      let live := if circ then cuts else lcuts
+      let nF := live.countP (·.fwd)
+      let nR := live.countP (!·.fwd)
+      let wf := isDna body && siteCount e rotated circ == (nF, nR) && cuts.all (·.ok) &&
+        cuts.all (fun c => c.hi ≤ body.length) &&
+        (circ && body.length > 0 || !circ && linearRotOk k cuts) &&
         expect.all (fun f => f.fwd.length == 4 && f.rev.length == 4)
       some ⟨⟨text, circ⟩, expect, wf⟩
   | _ => none
 
-def parseParts (e : Enzyme) (s : String) : Option (List PartSpec) := (splitList ";" s).mapM (parsePart e)
+def toggleAt (i : Nat) (l : List String) : List (Bool × String) := l.zipIdx.map fun (s, j) => (j == i, s)
+
+def parseParts (e : Enzyme) (s : String) : Option (List PartSpec) := (splitList ";" s).mapM (parsePart e false)
+
+/-- the parts with part number `twin` given the other topology (same text) -/
+def parsePartsTwin (e : Enzyme) (twin : Nat) (s : String) : Option (List PartSpec) :=
+  (toggleAt twin (splitList ";" s)).mapM fun (t, it) => parsePart e t it
 
 def partsText (ps : List PartSpec) : String :=
   joinWith ";" (ps.map fun p => String.ofList p.part.seq ++ ":" ++ (if p.part.circular then "C" else "L"))
@@ -164,6 +200,18 @@ def render (f : List String) : List String :=
         [p1, p2, p3].all fun p => validPerm ps.length (parseNats p)
       "goldengate" :: boolStr dom :: enz :: partsText ps :: [p1, p2, p3].map fun p => partsText (applyPerm ps (parseNats p))
     | none => ["bad"]
+  | ["ggtwin", _, enz, parts, twin, p1, p2, p3] =>
+    -- one request, one process: first GoldenGate on the parts with part `twin` in its OTHER topology (same text), then the
+    -- four calls on the parts as given
+    match enzymeOf enz with
+    | none => ["bad"]
+    | some e =>
+      match parseParts e parts, parsePartsTwin e (natOfStr twin) parts with
+      | some ps, some pt =>
+        let dom := ps.all (·.wf) && pt.all (·.wf) && dnaPool (ps.flatMap (·.expect)) && dnaPool (pt.flatMap (·.expect)) &&
+          [p1, p2, p3].all fun p => validPerm ps.length (parseNats p)
+        "goldengate2" :: boolStr dom :: enz :: partsText pt :: partsText ps :: [p1, p2, p3].map fun p => partsText (applyPerm ps (parseNats p))
+      | _, _ => ["bad"]
   | _ => ["bad"]
 
 /-! ### canonical forms and sets -/
@@ -410,6 +458,37 @@ def judge (f out : List String) : Verdict :=
         | st :: _ =>
           { corr := false, judge := if inDom then some false else none, cls := "gg/" ++ tag ++ "/" ++ st, detail := "model returns" }
         | [] => { corr := false, judge := some false, cls := "gg/" ++ tag ++ "/missing" }
+  | ["ggtwin", tag, enz, parts, twin, p1, p2, p3] =>
+    match enzymeOf enz with
+    | none => { corr := false, judge := none, cls := "bad-case" }
+    | some e =>
+      match parseParts e parts, parsePartsTwin e (natOfStr twin) parts with
+      | some ps, some pt =>
+        let permsOk := [p1, p2, p3].all fun p => validPerm ps.length (parseNats p)
+        let inDom := ps.all (·.wf) && pt.all (·.wf) && dnaPool (ps.flatMap (·.expect)) && dnaPool (pt.flatMap (·.expect)) && permsOk
+        let setup := fun (kind : String) (qs : List PartSpec) (cut : String) =>
+          let real := (if qs.isEmpty then [] else cut.splitOn "|").map parsePool
+          let cutOk := real.length == qs.length && (real.zip qs).all fun (r, p) =>
+            match r with
+            | some fr => sortFrags fr == sortFrags p.expect
+            | none => false
+          ({ kind, tag, poolModel := (real.mapM id).map List.flatten, poolSpec := qs.flatMap (·.expect), inDomain := inDom, cutOk } : Setup)
+        match out with
+        | ["ok", race, rT, r0, r1, r2, r3, cut, cutT] =>
+          -- each call is judged by the spec for ITS topology
+          let a := judgeRuns (setup ("ggtwin:" ++ enz) ps cut) race [r0, r1, r2, r3]
+          let b := judgeRuns (setup ("ggtwin:" ++ enz) pt cutT) race [rT, rT, rT, rT]
+          let differs := sortFrags (ps.flatMap (·.expect)) != sortFrags (pt.flatMap (·.expect))
+          { corr := a.corr && b.corr,
+            judge := match a.judge, b.judge with
+              | some x, some y => some (x && y)
+              | _, _ => none,
+            cls := a.cls ++ (if differs then "/twin-differs" else "/twin-same"),
+            detail := if a.corr && b.corr && a.judge == some true && b.judge == some true then "" else
+              "main: " ++ a.detail ++ " | twin (first call, other topology): " ++ b.detail }
+        | st :: _ => { corr := false, judge := if inDom then some false else none, cls := "ggtwin/" ++ tag ++ "/" ++ st, detail := "model returns" }
+        | [] => { corr := false, judge := some false, cls := "ggtwin/" ++ tag ++ "/missing" }
+      | _, _ => { corr := false, judge := none, cls := "bad-case" }
   | _ => { corr := false, judge := none, cls := "bad-case", detail := "bad case" }
 
 def driver : PropDriver := { render, judge }
